@@ -8,12 +8,41 @@ pub mod tables;
 
 use std::io::Write;
 
+/// index of the scenario row / table being worked on (for the watchdog's message)
+pub static ROW: std::sync::atomic::AtomicUsize = std::sync::atomic::AtomicUsize::new(0);
+
+/// Termination watchdog: a formatting / comparison / zeroize call of the library that does not return is data.
+/// When the output file has not grown for GAH_HANG_S seconds (default 60) while the run is not finished, the
+/// process ends with exit code 86 and "@hang" on stderr; the runner records an `exit` event of class "hang".
+fn watchdog(path: String) {
+    let limit: u64 = std::env::var("GAH_HANG_S").ok().and_then(|s| s.parse().ok()).unwrap_or(60);
+    std::thread::spawn(move || {
+        let mut last = (u64::MAX, usize::MAX);
+        let mut idle_ms = 0u64;
+        loop {
+            std::thread::sleep(std::time::Duration::from_millis(250));
+            let now = (std::fs::metadata(&path).map(|m| m.len()).unwrap_or(0), ROW.load(std::sync::atomic::Ordering::Relaxed));
+            if now != last {
+                last = now;
+                idle_ms = 0;
+            } else {
+                idle_ms += 250;
+                if idle_ms >= limit * 1000 {
+                    eprintln!("@hang no output for {} s while working on row {}: a call did not return", limit, now.1);
+                    std::process::exit(86);
+                }
+            }
+        }
+    });
+}
+
 fn main() {
     let args: Vec<String> = std::env::args().collect();
     if args.len() < 4 {
         eprintln!("usage: gaaux <layout|c19|hex|cmp> <tier|scenario-file> <out>");
         std::process::exit(2);
     }
+    watchdog(args[3].clone());
     let mut out = std::io::BufWriter::new(std::fs::File::create(&args[3]).expect("out"));
     match args[1].as_str() {
         "layout" => layout::run(&args[2], &mut out),
